@@ -141,6 +141,11 @@ func (n *LocalNode) RequestToJoin(joiner chord.VNode) (chord.VNode, []chord.VNod
 	}()
 
 	prevPredecessor = n.predecessor
+	if prevPredecessor == nil {
+		// our predecessor was dropped by failure detection and has not been re-learned
+		// via Notify yet: we cannot hand off a range, let the joiner retry
+		return nil, nil, chord.ErrJoinInvalidState
+	}
 
 	// see issue https://github.com/zllovesuki/specter/issues/23
 	if !chord.Between(prevPredecessor.ID(), joiner.ID(), n.ID(), false) {
